@@ -20,7 +20,11 @@ TARGETS = ['selfies/grammar_rules.py::next_atom_state',
            'selfies/mol_graph.py::MolecularGraph.add_ring_bond',
            'selfies/mol_graph.py::MolecularGraph.update_bond_order',
            'selfies/utils/smiles_utils.py::smiles_to_bond',
-           'selfies/utils/smiles_utils.py::bond_to_smiles']
+           'selfies/utils/smiles_utils.py::bond_to_smiles',
+           'selfies/decoder.py::_form_rings_bilocally',
+           'selfies/mol_graph.py::Atom.bonding_capacity',
+           'selfies/grammar_rules.py::process_branch_symbol',
+           'selfies/grammar_rules.py::process_ring_symbol']
 EXPLANATION = (
     "Mixed. PROVED: exception-freedom obligations (index in range, key present, None receivers, asserts, unpack "
     "arity, division by zero) generated at every raising operation of the functions under contract listed in "
